@@ -52,3 +52,565 @@ Proof.
     apply N.eqb_eq in Hc1. apply N.leb_le in Hc2. apply N.eqb_eq in Hc3. apply N.eqb_eq in Hc4.
     rewrite Hte. repeat split; auto.
 Qed.
+
+(** pure board algebra: the board after make followed by unmake, for each kind of move *)
+Ltac sq_cases s l :=
+  match l with
+  | nil => idtac
+  | cons ?a ?r => destruct (N.eq_dec s a) as [->|?]; [nth_eval; auto | sq_cases s r]
+  end.
+
+Lemma nthP_top sqs s x : length sqs = 64%nat -> s < 64 -> nthP (updN s x sqs) s = x.
+Proof. intros H1 H2. apply nthP_updN_eq. lia. Qed.
+
+Lemma board_plain sqs f t pc cap x y :
+  length sqs = 64%nat -> f < 64 -> t < 64 -> nthP sqs f = pc -> nthP sqs t = cap ->
+  updN f pc (updN t cap (updN t x (updN f y sqs))) = sqs.
+Proof.
+  intros Hl Hf Ht H1 H2. apply list_ext_N; [rewrite !length_updN; auto | auto |]. intros s Hs.
+  destruct (N.eq_dec s f) as [->|?]; [nth_eval; auto|].
+  destruct (N.eq_dec s t) as [->|?]; [nth_eval; auto|]. nth_eval. reflexivity.
+Qed.
+
+Lemma board_ep sqs f t e pc cap pe x y z :
+  length sqs = 64%nat -> f < 64 -> t < 64 -> e < 64 -> e <> f -> e <> t ->
+  nthP sqs f = pc -> nthP sqs t = cap -> nthP sqs e = pe ->
+  updN e pe (updN f pc (updN t cap (updN t x (updN f y (updN e z sqs))))) = sqs.
+Proof.
+  intros Hl Hf Ht He N1 N2 H1 H2 H3. apply list_ext_N; [rewrite !length_updN; auto | auto |]. intros s Hs.
+  destruct (N.eq_dec s e) as [->|?]; [nth_eval; auto|].
+  destruct (N.eq_dec s f) as [->|?]; [nth_eval; auto|].
+  destruct (N.eq_dec s t) as [->|?]; [nth_eval; auto|]. nth_eval. reflexivity.
+Qed.
+
+Lemma board_castle sqs f t r1 r3 kg rk :
+  length sqs = 64%nat -> f < 64 -> t < 64 -> r1 < 64 -> r3 < 64 ->
+  f <> t -> f <> r1 -> f <> r3 -> t <> r1 -> t <> r3 -> r1 <> r3 ->
+  nthP sqs f = kg -> nthP sqs t = EMPTY -> nthP sqs r1 = EMPTY -> nthP sqs r3 = rk ->
+  updN r3 rk (updN r1 EMPTY (updN f kg (updN t EMPTY (updN t kg (updN f EMPTY (updN r1 rk (updN r3 EMPTY sqs))))))) = sqs.
+Proof.
+  intros Hl Hf Ht Hr1 Hr3 N1 N2 N3 N4 N5 N6 H1 H2 H3 H4.
+  apply list_ext_N; [rewrite !length_updN; auto | auto |]. intros s Hs.
+  destruct (N.eq_dec s r3) as [->|?]; [nth_eval; auto|].
+  destruct (N.eq_dec s r1) as [->|?]; [nth_eval; auto|].
+  destruct (N.eq_dec s f) as [->|?]; [nth_eval; auto|].
+  destruct (N.eq_dec s t) as [->|?]; [nth_eval; auto|]. nth_eval. reflexivity.
+Qed.
+
+Lemma castle_eval1 sqs f t r1 r3 kg rk :
+  length sqs = 64%nat -> f < 64 -> t < 64 -> r1 < 64 -> r3 < 64 ->
+  f <> t -> f <> r1 -> f <> r3 -> t <> r1 -> t <> r3 -> r1 <> r3 ->
+  nthP (updN f kg (updN t EMPTY (updN t kg (updN f EMPTY (updN r1 rk (updN r3 EMPTY sqs)))))) r1 = rk.
+Proof. intros. nth_eval. reflexivity. Qed.
+Lemma castle_eval3 sqs f t r1 r3 kg rk :
+  length sqs = 64%nat -> f < 64 -> t < 64 -> r1 < 64 -> r3 < 64 ->
+  f <> t -> f <> r1 -> f <> r3 -> t <> r1 -> t <> r3 -> r1 <> r3 ->
+  nthP (updN f kg (updN t EMPTY (updN t kg (updN f EMPTY (updN r1 rk (updN r3 EMPTY sqs)))))) r3 = EMPTY.
+Proof. intros. nth_eval. reflexivity. Qed.
+
+Lemma notPawn_facts pc : isPawnPiece pc = false -> pc <> WPAWN /\ pc <> BPAWN.
+Proof.
+  unfold isPawnPiece. intro H. apply orb_false_elim in H as [H1 H2].
+  apply N.eqb_neq in H1. apply N.eqb_neq in H2. auto.
+Qed.
+
+Lemma len_upd1 (sqs : list piece) a x : length sqs = 64%nat -> length (updN a x sqs) = 64%nat.
+Proof. intro; rewrite length_updN; auto. Qed.
+#[local] Hint Resolve len_upd1 : len.
+
+Section Main.
+Variable zk : zkeys.
+Hypothesis EKZ : emptyKeysZero zk.
+
+Lemma makeMove_fst p m :
+  fst (makeMove zk p m) =
+  mmEpilogue zk
+    (if negb (getPiece p (mto m) =? EMPTY) ||
+        pawnsAt (setEpSquare zk (set_hashKey p (N.lxor (hashKey p) (zk_white zk))) (-1)) (sqMask (mfrom m))
+     then mmCaptureBranch zk (setEpSquare zk (set_hashKey p (N.lxor (hashKey p) (zk_white zk))) (-1)) m
+                          (getPiece p (mfrom m)) (epSquare p)
+     else mmQuietBranch zk (setEpSquare zk (set_hashKey p (N.lxor (hashKey p) (zk_white zk))) (-1)) m
+                        (sqMask (mfrom m)))
+    m (whiteMove p).
+Proof. reflexivity. Qed.
+
+Lemma unMakeMove_unfold q m ui :
+  unMakeMove zk q m ui =
+  umEpBlock zk (umCastleBlock zk (fst (umRestoreBlock zk q m ui)) m (snd (umRestoreBlock zk q m ui))) m
+            (snd (umRestoreBlock zk q m ui)).
+Proof. unfold unMakeMove. destruct (umRestoreBlock zk q m ui). reflexivity. Qed.
+
+Lemma St_finish sqs sc r p : St zk 0 sqs sc r -> sqs = squares p -> sc = scalars p -> St zk 0 (squares p) (scalars p) r.
+Proof. intros S <- <-. exact S. Qed.
+
+Lemma isWhitePiece_range pc : isWhitePiece pc = true -> 1 <= pc <= 6.
+Proof. unfold isWhitePiece. intro H. apply andb_prop in H as [H1 H2]. apply N.leb_le in H1. apply N.leb_le in H2. lia. Qed.
+Lemma isBlackPiece_range pc : isBlackPiece pc = true -> 7 <= pc <= 12.
+Proof. unfold isBlackPiece. intro H. apply andb_prop in H as [H1 H2]. apply N.leb_le in H1. apply N.leb_le in H2. lia. Qed.
+
+Lemma make_unmake_St_white p m :
+  ConsistentX zk 0 p -> moveOk p m = true -> whiteMove p = true ->
+  exists sqs' h' cm' ep',
+    St zk 0 sqs' (false, h', fullMoveCounter p, cm', ep') (fst (makeMove zk p m)) /\
+    forall q h2 cm2 ep2, St zk 0 sqs' (false, h2, fullMoveCounter p, cm2, ep2) q ->
+      St zk 0 (squares p) (scalars p) (unMakeMove zk q m (snd (makeMove zk p m))).
+Proof.
+  intros C Hok Ewm.
+  pose proof (moveOk_facts p m Hok) as F. cbv zeta in F. rewrite Ewm in F.
+  destruct F as (Hf & Ht & Hne & Hown & Hcapn & Hpro & Hep & HcK & HcQ).
+  rewrite makeMove_fst.
+  change (snd (makeMove zk p m)) with (mkUndo (getPiece p (mto m)) (castleMask p) (epSquare p) (halfMoveClock p)).
+  assert (S0 : St zk 0 (squares p) (true, halfMoveClock p, fullMoveCounter p, castleMask p, epSquare p) p).
+  { split; [auto | split; [reflexivity|]]. unfold scalars. rewrite Ewm. reflexivity. }
+  assert (Esc : scalars p = (true, halfMoveClock p, fullMoveCounter p, castleMask p, epSquare p)).
+  { unfold scalars. rewrite Ewm. reflexivity. }
+  assert (Hlen : length (squares p) = 64%nat) by (destruct C; auto).
+  pose proof (make_prologue zk _ _ _ _ _ _ _ S0) as S2.
+  rewrite Ewm.
+  rewrite (pawnsAt_spec zk (zk_white zk)) by (apply S2 || auto).
+  rewrite (St_getPiece zk _ _ _ _ (mfrom m) S2).
+  unfold getPiece in *. fold (nthP (squares p) (mfrom m)) in *. fold (nthP (squares p) (mto m)) in *.
+  set (sqs := squares p) in *. set (f := mfrom m) in *. set (t := mto m) in *.
+  set (pc := nthP sqs f) in *. set (cap := nthP sqs t) in *.
+  cbn [ownPiece] in *.
+  assert (Hpcr := isWhitePiece_range _ Hown).
+  assert (Hcaplt : cap < 13) by (eapply St_pieces; eauto).
+  destruct (negb (cap =? EMPTY) || isPawnPiece pc) eqn:Ebr.
+  - (* capture or pawn move *)
+    assert (Hnk : pc = WKING -> (Z.of_N t <> sqPlus f 2 /\ Z.of_N t <> sqPlus f (-2))%Z).
+    { intro Ek. assert (Hc : cap <> EMPTY).
+      { intro E0. rewrite E0, Ek in Ebr. discriminate. }
+      unfold sqPlus. split; intro E.
+      - apply Hc. apply (HcK Ek). lia.
+      - apply Hc. apply (HcQ Ek); lia. }
+    destruct (N.eqb_spec pc WPAWN) as [Ep|Ep]; [destruct (Z.eqb_spec (Z.of_N t) (epSquare p)) as [Ee|Ee]|].
+    + (* en passant capture *)
+      destruct (Hep Ep Ee) as (Hc0 & Hpr0 & H8 & Hbp & H16).
+      fold (nthP sqs (t - 8)) in Hbp.
+      assert (E16 : (Z.of_N t <> sqPlus f 16)%Z) by (unfold sqPlus; lia).
+      pose proof (capture_epW zk EKZ m _ _ _ _ _ _ _ _ (epSquare p) S2 Hf Ht Hpr0 E16 Ee H8) as Sc.
+      rewrite Ep. fold f t in Sc.
+      destruct (make_epilogue zk _ _ _ _ _ _ _ m Sc) as (cm' & Sm).
+      eexists _, _, _, _. split; [exact Sm|].
+      intros q h2 cm2 ep2 Sq.
+      rewrite unMakeMove_unfold.
+      destruct (um_restore zk m _ _ _ _ _ _ q (mkUndo cap (castleMask p) (epSquare p) (halfMoveClock p)) Sq Hf Ht Hcaplt)
+        as (Hsnd & Sr).
+      fold f t in Hsnd, Sr. cbn [u_captured u_castleMask u_epSquare u_halfMoveClock negb] in Hsnd, Sr.
+      rewrite Hpr0 in Hsnd, Sr. change (negb (EMPTY =? EMPTY)) with false in Hsnd, Sr. cbv iota in Hsnd, Sr.
+      assert (Ept : nthP (updN t WPAWN (updN f EMPTY (updN (t - 8) EMPTY sqs))) t = WPAWN)
+        by (apply nthP_top; auto with len).
+      rewrite Ept in Hsnd, Sr. rewrite Hsnd.
+      destruct (St_scalars zk _ _ _ _ _ _ _ _ Sr) as (Hwr & _).
+      rewrite um_castle_none by (left; rewrite Hwr; reflexivity).
+      pose proof (um_epW zk m _ _ _ _ _ _ _ Sr Ee H8 Ht) as Se. fold t in Se.
+      apply (St_finish _ _ _ _ Se); [|symmetry; exact Esc].
+      rewrite <- Hc0. apply board_ep; auto; try (clear - H8 Ht; lia).
+      intro E. clear - E Ep Hbp. rewrite E in Hbp. fold pc in Hbp. rewrite Ep in Hbp. discriminate.
+    + (* pawn move that is not an e.p. capture *)
+      set (newpc := if negb (mpromote m =? EMPTY) then mpromote m else pc).
+      assert (Hnew : newpc < 13).
+      { unfold newpc. destruct (N.eqb_spec (mpromote m) EMPTY) as [|n]; cbn [negb]; [clear - Hpcr; lia|].
+        destruct (Hpro n) as (_ & Hw). apply isWhitePiece_range in Hw. clear - Hw. lia. }
+      assert (HB : pc = BPAWN -> (Z.of_N t <> sqPlus f (-16))%Z -> Z.of_N t <> epSquare p).
+      { intro E. exfalso. clear - E Hpcr. unfold BPAWN in E. lia. }
+      destruct (capture_plain zk EKZ m _ _ _ _ _ _ _ _ pc (epSquare p) newpc S2 Hf Ht eq_refl Hnew (fun _ _ => Ee) HB)
+        as (ep' & Sc).
+      fold f t in Sc.
+      destruct (make_epilogue zk _ _ _ _ _ _ _ m Sc) as (cm' & Sm).
+      eexists _, _, _, _. split; [exact Sm|].
+      intros q h2 cm2 ep2 Sq.
+      rewrite unMakeMove_unfold.
+      destruct (um_restore zk m _ _ _ _ _ _ q (mkUndo cap (castleMask p) (epSquare p) (halfMoveClock p)) Sq Hf Ht Hcaplt)
+        as (Hsnd & Sr).
+      fold f t in Hsnd, Sr. cbn [u_captured u_castleMask u_epSquare u_halfMoveClock negb] in Hsnd, Sr.
+      assert (Epc1 : (if negb (mpromote m =? EMPTY) then WPAWN else nthP (updN t newpc (updN f EMPTY sqs)) t) = pc).
+      { rewrite nthP_top by auto with len. unfold newpc.
+        destruct (N.eqb_spec (mpromote m) EMPTY) as [|n]; cbn [negb]; auto. }
+      rewrite Epc1 in Hsnd, Sr. rewrite Hsnd.
+      destruct (St_scalars zk _ _ _ _ _ _ _ _ Sr) as (Hwr & _ & _ & _ & Hepr).
+      rewrite um_castle_none by (left; rewrite Hwr, Ep; reflexivity).
+      rewrite um_ep_none by (left; rewrite Hepr; exact Ee).
+      apply (St_finish _ _ _ _ Sr); [|symmetry; exact Esc].
+      apply board_plain; auto.
+    + (* capture by a piece *)
+      assert (Hmp : mpromote m = EMPTY).
+      { destruct (N.eqb_spec (mpromote m) EMPTY) as [|n]; auto. destruct (Hpro n) as (E & _). contradiction. }
+      assert (HW : pc = WPAWN -> (Z.of_N t <> sqPlus f 16)%Z -> Z.of_N t <> epSquare p) by (intro; contradiction).
+      assert (HB : pc = BPAWN -> (Z.of_N t <> sqPlus f (-16))%Z -> Z.of_N t <> epSquare p).
+      { intro E. exfalso. clear - E Hpcr. unfold BPAWN in E. lia. }
+      assert (Hnew : pc < 13) by (clear - Hpcr; lia).
+      assert (Enew : pc = (if negb (mpromote m =? EMPTY) then mpromote m else pc)) by (rewrite Hmp; reflexivity).
+      destruct (capture_plain zk EKZ m _ _ _ _ _ _ _ _ pc (epSquare p) pc S2 Hf Ht Enew Hnew HW HB) as (ep' & Sc).
+      fold f t in Sc.
+      destruct (make_epilogue zk _ _ _ _ _ _ _ m Sc) as (cm' & Sm).
+      eexists _, _, _, _. split; [exact Sm|].
+      intros q h2 cm2 ep2 Sq.
+      rewrite unMakeMove_unfold.
+      destruct (um_restore zk m _ _ _ _ _ _ q (mkUndo cap (castleMask p) (epSquare p) (halfMoveClock p)) Sq Hf Ht Hcaplt)
+        as (Hsnd & Sr).
+      fold f t in Hsnd, Sr. cbn [u_captured u_castleMask u_epSquare u_halfMoveClock negb] in Hsnd, Sr.
+      rewrite Hmp in Hsnd, Sr. change (negb (EMPTY =? EMPTY)) with false in Hsnd, Sr. cbv iota in Hsnd, Sr.
+      rewrite nthP_top in Hsnd, Sr by auto with len. rewrite Hsnd.
+      destruct (St_scalars zk _ _ _ _ _ _ _ _ Sr) as (Hwr & _ & _ & _ & Hepr).
+      rewrite um_castle_none.
+      2:{ rewrite Hwr. cbn [negb]. destruct (N.eqb_spec pc WKING) as [Ek|Ek]; [right; exact (Hnk Ek) | left; reflexivity]. }
+      rewrite um_ep_none.
+      2:{ right. split; [exact Ep|]. intro E. clear - E Hpcr. unfold BPAWN in E. lia. }
+      apply (St_finish _ _ _ _ Sr); [|symmetry; exact Esc].
+      apply board_plain; auto.
+  - (* quiet move *)
+    apply orb_false_elim in Ebr as [Ec Enp]. apply negb_false_iff in Ec. apply N.eqb_eq in Ec.
+    assert (Hmp : mpromote m = EMPTY).
+    { destruct (N.eqb_spec (mpromote m) EMPTY) as [|n]; auto. destruct (Hpro n) as (E & _).
+      rewrite E in Enp. discriminate. }
+    destruct (notPawn_facts _ Enp) as (Hnw & Hnb).
+    assert (Hr12 : 1 <= pc <= 12) by (clear - Hpcr; lia).
+    assert (Hum : forall inner q h2 cm2 ep2,
+               St zk 0 (updN t pc inner) (false, h2, fullMoveCounter p, cm2, ep2) q -> length inner = 64%nat ->
+               snd (umRestoreBlock zk q m (mkUndo cap (castleMask p) (epSquare p) (halfMoveClock p))) = pc /\
+               St zk 0 (updN f pc (updN t EMPTY (updN t pc inner)))
+                  (true, halfMoveClock p, fullMoveCounter p, castleMask p, epSquare p)
+                  (fst (umRestoreBlock zk q m (mkUndo cap (castleMask p) (epSquare p) (halfMoveClock p))))).
+    { intros inner q h2 cm2 ep2 Sq Hl.
+      destruct (um_restore zk m _ _ _ _ _ _ q (mkUndo cap (castleMask p) (epSquare p) (halfMoveClock p)) Sq Hf Ht Hcaplt)
+        as (Hsnd & Sr).
+      fold f t in Hsnd, Sr. cbn [u_captured u_castleMask u_epSquare u_halfMoveClock negb] in Hsnd, Sr.
+      rewrite Hmp in Hsnd, Sr. change (negb (EMPTY =? EMPTY)) with false in Hsnd, Sr. cbv iota in Hsnd, Sr.
+      rewrite nthP_top in Hsnd, Sr by auto. replace (updN t cap (updN t pc inner)) with (updN t EMPTY (updN t pc inner)) in Sr by (rewrite Ec; reflexivity).
+      split; assumption. }
+    destruct (N.eqb_spec pc WKING) as [Ek|Ek].
+    + destruct (N.eq_dec t (f + 2)) as [Et|Et]; [|destruct (N.le_gt_cases 2 f) as [H2f|H2f]; [destruct (N.eq_dec t (f - 2)) as [Et2|Et2]|]].
+      * (* O-O *)
+        destruct (HcK Ek Et) as (_ & Hf3 & Hr1 & Hr3).
+        fold (nthP sqs (f + 1)) in Hr1. fold (nthP sqs (f + 3)) in Hr3.
+        assert (Hik : isKingPiece pc = true) by (rewrite Ek; reflexivity).
+        assert (Hrk : 1 <= WROOK <= 12) by (unfold WROOK; lia).
+        pose proof (quiet_castleK zk EKZ m _ _ _ _ _ _ _ _ pc WROOK S2 Hf3 Et eq_refl Hik Ec Hr1 Hr3 Hrk eq_refl) as Sc.
+        fold f t in Sc.
+        destruct (make_epilogue zk _ _ _ _ _ _ _ m Sc) as (cm' & Sm).
+        eexists _, _, _, _. split; [exact Sm|].
+        intros q h2 cm2 ep2 Sq.
+        rewrite unMakeMove_unfold.
+        edestruct Hum as (Hsnd & Sr); [exact Sq | auto with len |].
+        rewrite Hsnd.
+        assert (D1 : f <> f + 1) by (clear; lia). assert (D2 : f <> f + 3) by (clear; lia).
+        assert (D3 : t <> f + 1) by (clear - Et; lia). assert (D4 : t <> f + 3) by (clear - Et; lia).
+        assert (D5 : f + 1 <> f + 3) by (clear; lia). assert (D6 : f + 1 < 64) by (clear - Hf3; lia).
+        pose proof (um_castleK zk EKZ m _ _ _ _ _ _ _ pc WROOK Sr Ek Et Hf3
+                      (castle_eval1 sqs f t (f + 1) (f + 3) pc WROOK Hlen Hf Ht D6 Hf3 Hne D1 D2 D3 D4 D5)
+                      Hrk eq_refl
+                      (castle_eval3 sqs f t (f + 1) (f + 3) pc WROOK Hlen Hf Ht D6 Hf3 Hne D1 D2 D3 D4 D5)) as Su.
+        fold f t in Su.
+        rewrite um_ep_none by (right; split; assumption).
+        apply (St_finish _ _ _ _ Su); [|symmetry; exact Esc].
+        apply board_castle; auto.
+      * (* O-O-O *)
+        destruct (HcQ Ek H2f Et2) as (_ & Hf4 & Hr1 & Hr3).
+        fold (nthP sqs (f - 1)) in Hr1. fold (nthP sqs (f - 4)) in Hr3.
+        assert (Hik : isKingPiece pc = true) by (rewrite Ek; reflexivity).
+        assert (Hrk : 1 <= WROOK <= 12) by (unfold WROOK; lia).
+        pose proof (quiet_castleQ zk EKZ m _ _ _ _ _ _ _ _ pc WROOK S2 Hf4 Hf Et2 eq_refl Hik Ec Hr1 Hr3 Hrk eq_refl) as Sc.
+        fold f t in Sc.
+        destruct (make_epilogue zk _ _ _ _ _ _ _ m Sc) as (cm' & Sm).
+        eexists _, _, _, _. split; [exact Sm|].
+        intros q h2 cm2 ep2 Sq.
+        rewrite unMakeMove_unfold.
+        edestruct Hum as (Hsnd & Sr); [exact Sq | auto with len |].
+        rewrite Hsnd.
+        assert (D1 : f <> f - 1) by (clear - Hf4; lia). assert (D2 : f <> f - 4) by (clear - Hf4; lia).
+        assert (D3 : t <> f - 1) by (clear - Et2 Hf4; lia). assert (D4 : t <> f - 4) by (clear - Et2 Hf4; lia).
+        assert (D5 : f - 1 <> f - 4) by (clear - Hf4; lia). assert (D6 : f - 1 < 64) by (clear - Hf; lia).
+        assert (D7 : f - 4 < 64) by (clear - Hf; lia).
+        pose proof (um_castleQ zk EKZ m _ _ _ _ _ _ _ pc WROOK Sr Ek Et2 Hf4 Hf
+                      (castle_eval1 sqs f t (f - 1) (f - 4) pc WROOK Hlen Hf Ht D6 D7 Hne D1 D2 D3 D4 D5)
+                      Hrk eq_refl
+                      (castle_eval3 sqs f t (f - 1) (f - 4) pc WROOK Hlen Hf Ht D6 D7 Hne D1 D2 D3 D4 D5)) as Su.
+        fold f t in Su.
+        rewrite um_ep_none by (right; split; assumption).
+        apply (St_finish _ _ _ _ Su); [|symmetry; exact Esc].
+        apply board_castle; auto.
+      * (* king move, not castling *)
+        assert (Hk : (Z.of_N t <> sqPlus f 2 /\ Z.of_N t <> sqPlus f (-2))%Z).
+        { unfold sqPlus. clear - Et Et2 H2f. split; lia. }
+        pose proof (quiet_plain zk EKZ m _ _ _ _ _ _ _ _ pc S2 Hf Ht Hne eq_refl Hr12 Enp Ec (or_intror Hk)) as Sc.
+        fold f t in Sc.
+        destruct (make_epilogue zk _ _ _ _ _ _ _ m Sc) as (cm' & Sm).
+        eexists _, _, _, _. split; [exact Sm|].
+        intros q h2 cm2 ep2 Sq.
+        rewrite unMakeMove_unfold.
+        edestruct Hum as (Hsnd & Sr); [exact Sq | auto with len |].
+        rewrite Hsnd.
+        rewrite um_castle_none by (right; exact Hk).
+        rewrite um_ep_none by (right; split; assumption).
+        apply (St_finish _ _ _ _ Sr); [|symmetry; exact Esc].
+        rewrite <- Ec. apply board_plain; auto.
+      * assert (Hk : (Z.of_N t <> sqPlus f 2 /\ Z.of_N t <> sqPlus f (-2))%Z).
+        { unfold sqPlus. clear - Et H2f. split; lia. }
+        pose proof (quiet_plain zk EKZ m _ _ _ _ _ _ _ _ pc S2 Hf Ht Hne eq_refl Hr12 Enp Ec (or_intror Hk)) as Sc.
+        fold f t in Sc.
+        destruct (make_epilogue zk _ _ _ _ _ _ _ m Sc) as (cm' & Sm).
+        eexists _, _, _, _. split; [exact Sm|].
+        intros q h2 cm2 ep2 Sq.
+        rewrite unMakeMove_unfold.
+        edestruct Hum as (Hsnd & Sr); [exact Sq | auto with len |].
+        rewrite Hsnd.
+        rewrite um_castle_none by (right; exact Hk).
+        rewrite um_ep_none by (right; split; assumption).
+        apply (St_finish _ _ _ _ Sr); [|symmetry; exact Esc].
+        rewrite <- Ec. apply board_plain; auto.
+    + (* not a king *)
+      assert (Hik : isKingPiece pc = false).
+      { unfold isKingPiece. apply orb_false_intro; apply N.eqb_neq; [exact Ek|]. clear - Hpcr. unfold BKING. lia. }
+      pose proof (quiet_plain zk EKZ m _ _ _ _ _ _ _ _ pc S2 Hf Ht Hne eq_refl Hr12 Enp Ec (or_introl Hik)) as Sc.
+      fold f t in Sc.
+      destruct (make_epilogue zk _ _ _ _ _ _ _ m Sc) as (cm' & Sm).
+      eexists _, _, _, _. split; [exact Sm|].
+      intros q h2 cm2 ep2 Sq.
+      rewrite unMakeMove_unfold.
+      edestruct Hum as (Hsnd & Sr); [exact Sq | auto with len |].
+      rewrite Hsnd.
+      destruct (St_scalars zk _ _ _ _ _ _ _ _ Sr) as (Hwr & _).
+      rewrite um_castle_none.
+      2:{ left. rewrite Hwr. apply N.eqb_neq. exact Ek. }
+      rewrite um_ep_none by (right; split; assumption).
+      apply (St_finish _ _ _ _ Sr); [|symmetry; exact Esc].
+      rewrite <- Ec. apply board_plain; auto.
+Qed.
+
+Lemma make_unmake_St_black p m :
+  ConsistentX zk 0 p -> moveOk p m = true -> whiteMove p = false ->
+  exists sqs' h' cm' ep',
+    St zk 0 sqs' (true, h', (fullMoveCounter p + 1)%Z, cm', ep') (fst (makeMove zk p m)) /\
+    forall q h2 cm2 ep2, St zk 0 sqs' (true, h2, (fullMoveCounter p + 1)%Z, cm2, ep2) q ->
+      St zk 0 (squares p) (scalars p) (unMakeMove zk q m (snd (makeMove zk p m))).
+Proof.
+  intros C Hok Ewm.
+  pose proof (moveOk_facts p m Hok) as F. cbv zeta in F. rewrite Ewm in F.
+  destruct F as (Hf & Ht & Hne & Hown & Hcapn & Hpro & Hep & HcK & HcQ).
+  rewrite makeMove_fst.
+  change (snd (makeMove zk p m)) with (mkUndo (getPiece p (mto m)) (castleMask p) (epSquare p) (halfMoveClock p)).
+  assert (S0 : St zk 0 (squares p) (false, halfMoveClock p, fullMoveCounter p, castleMask p, epSquare p) p).
+  { split; [auto | split; [reflexivity|]]. unfold scalars. rewrite Ewm. reflexivity. }
+  assert (Esc : scalars p = (false, halfMoveClock p, fullMoveCounter p, castleMask p, epSquare p)).
+  { unfold scalars. rewrite Ewm. reflexivity. }
+  assert (Hlen : length (squares p) = 64%nat) by (destruct C; auto).
+  pose proof (make_prologue zk _ _ _ _ _ _ _ S0) as S2.
+  rewrite Ewm.
+  rewrite (pawnsAt_spec zk (zk_white zk)) by (apply S2 || auto).
+  rewrite (St_getPiece zk _ _ _ _ (mfrom m) S2).
+  unfold getPiece in *. fold (nthP (squares p) (mfrom m)) in *. fold (nthP (squares p) (mto m)) in *.
+  set (sqs := squares p) in *. set (f := mfrom m) in *. set (t := mto m) in *.
+  set (pc := nthP sqs f) in *. set (cap := nthP sqs t) in *.
+  cbn [ownPiece] in *.
+  assert (Hpcr := isBlackPiece_range _ Hown).
+  assert (Hcaplt : cap < 13) by (eapply St_pieces; eauto).
+  destruct (negb (cap =? EMPTY) || isPawnPiece pc) eqn:Ebr.
+  - (* capture or pawn move *)
+    assert (Hnk : pc = BKING -> (Z.of_N t <> sqPlus f 2 /\ Z.of_N t <> sqPlus f (-2))%Z).
+    { intro Ek. assert (Hc : cap <> EMPTY).
+      { intro E0. rewrite E0, Ek in Ebr. discriminate. }
+      unfold sqPlus. split; intro E.
+      - apply Hc. apply (HcK Ek). lia.
+      - apply Hc. apply (HcQ Ek); lia. }
+    destruct (N.eqb_spec pc BPAWN) as [Ep|Ep]; [destruct (Z.eqb_spec (Z.of_N t) (epSquare p)) as [Ee|Ee]|].
+    + (* en passant capture *)
+      destruct (Hep Ep Ee) as (Hc0 & Hpr0 & H8 & Hbp & H16).
+      fold (nthP sqs (t + 8)) in Hbp.
+      assert (E16 : (Z.of_N t <> sqPlus f (-16))%Z) by (unfold sqPlus; lia).
+      pose proof (capture_epB zk EKZ m _ _ _ _ _ _ _ _ (epSquare p) S2 Hf Ht Hpr0 E16 Ee H8) as Sc.
+      rewrite Ep. fold f t in Sc.
+      destruct (make_epilogue zk _ _ _ _ _ _ _ m Sc) as (cm' & Sm).
+      eexists _, _, _, _. split; [exact Sm|].
+      intros q h2 cm2 ep2 Sq.
+      rewrite unMakeMove_unfold.
+      destruct (um_restore zk m _ _ _ _ _ _ q (mkUndo cap (castleMask p) (epSquare p) (halfMoveClock p)) Sq Hf Ht Hcaplt)
+        as (Hsnd & Sr).
+      fold f t in Hsnd, Sr. cbn [u_captured u_castleMask u_epSquare u_halfMoveClock negb] in Hsnd, Sr.
+      replace (fullMoveCounter p + 1 - 1)%Z with (fullMoveCounter p) in Sr by (clear; lia).
+      rewrite Hpr0 in Hsnd, Sr. change (negb (EMPTY =? EMPTY)) with false in Hsnd, Sr. cbv iota in Hsnd, Sr.
+      assert (Ept : nthP (updN t BPAWN (updN f EMPTY (updN (t + 8) EMPTY sqs))) t = BPAWN)
+        by (apply nthP_top; auto with len).
+      rewrite Ept in Hsnd, Sr. rewrite Hsnd.
+      destruct (St_scalars zk _ _ _ _ _ _ _ _ Sr) as (Hwr & _).
+      rewrite um_castle_none by (left; rewrite Hwr; reflexivity).
+      pose proof (um_epB zk m _ _ _ _ _ _ _ Sr Ee H8) as Se. fold t in Se.
+      apply (St_finish _ _ _ _ Se); [|symmetry; exact Esc].
+      rewrite <- Hc0. apply board_ep; auto; try (clear - H8 Ht; lia).
+      intro E. clear - E Ep Hbp. rewrite E in Hbp. fold pc in Hbp. rewrite Ep in Hbp. discriminate.
+    + (* pawn move that is not an e.p. capture *)
+      set (newpc := if negb (mpromote m =? EMPTY) then mpromote m else pc).
+      assert (Hnew : newpc < 13).
+      { unfold newpc. destruct (N.eqb_spec (mpromote m) EMPTY) as [|n]; cbn [negb]; [clear - Hpcr; lia|].
+        destruct (Hpro n) as (_ & Hw). apply isBlackPiece_range in Hw. clear - Hw. lia. }
+      assert (HW : pc = WPAWN -> (Z.of_N t <> sqPlus f 16)%Z -> Z.of_N t <> epSquare p).
+      { intro E. exfalso. clear - E Hpcr. unfold WPAWN in E. lia. }
+      destruct (capture_plain zk EKZ m _ _ _ _ _ _ _ _ pc (epSquare p) newpc S2 Hf Ht eq_refl Hnew HW (fun _ _ => Ee))
+        as (ep' & Sc).
+      fold f t in Sc.
+      destruct (make_epilogue zk _ _ _ _ _ _ _ m Sc) as (cm' & Sm).
+      eexists _, _, _, _. split; [exact Sm|].
+      intros q h2 cm2 ep2 Sq.
+      rewrite unMakeMove_unfold.
+      destruct (um_restore zk m _ _ _ _ _ _ q (mkUndo cap (castleMask p) (epSquare p) (halfMoveClock p)) Sq Hf Ht Hcaplt)
+        as (Hsnd & Sr).
+      fold f t in Hsnd, Sr. cbn [u_captured u_castleMask u_epSquare u_halfMoveClock negb] in Hsnd, Sr.
+      replace (fullMoveCounter p + 1 - 1)%Z with (fullMoveCounter p) in Sr by (clear; lia).
+      assert (Epc1 : (if negb (mpromote m =? EMPTY) then BPAWN else nthP (updN t newpc (updN f EMPTY sqs)) t) = pc).
+      { rewrite nthP_top by auto with len. unfold newpc.
+        destruct (N.eqb_spec (mpromote m) EMPTY) as [|n]; cbn [negb]; auto. }
+      rewrite Epc1 in Hsnd, Sr. rewrite Hsnd.
+      destruct (St_scalars zk _ _ _ _ _ _ _ _ Sr) as (Hwr & _ & _ & _ & Hepr).
+      rewrite um_castle_none by (left; rewrite Hwr, Ep; reflexivity).
+      rewrite um_ep_none by (left; rewrite Hepr; exact Ee).
+      apply (St_finish _ _ _ _ Sr); [|symmetry; exact Esc].
+      apply board_plain; auto.
+    + (* capture by a piece *)
+      assert (Hmp : mpromote m = EMPTY).
+      { destruct (N.eqb_spec (mpromote m) EMPTY) as [|n]; auto. destruct (Hpro n) as (E & _). contradiction. }
+      assert (HB : pc = BPAWN -> (Z.of_N t <> sqPlus f (-16))%Z -> Z.of_N t <> epSquare p) by (intro; contradiction).
+      assert (HW : pc = WPAWN -> (Z.of_N t <> sqPlus f 16)%Z -> Z.of_N t <> epSquare p).
+      { intro E. exfalso. clear - E Hpcr. unfold WPAWN in E. lia. }
+      assert (Hnew : pc < 13) by (clear - Hpcr; lia).
+      assert (Enew : pc = (if negb (mpromote m =? EMPTY) then mpromote m else pc)) by (rewrite Hmp; reflexivity).
+      destruct (capture_plain zk EKZ m _ _ _ _ _ _ _ _ pc (epSquare p) pc S2 Hf Ht Enew Hnew HW HB) as (ep' & Sc).
+      fold f t in Sc.
+      destruct (make_epilogue zk _ _ _ _ _ _ _ m Sc) as (cm' & Sm).
+      eexists _, _, _, _. split; [exact Sm|].
+      intros q h2 cm2 ep2 Sq.
+      rewrite unMakeMove_unfold.
+      destruct (um_restore zk m _ _ _ _ _ _ q (mkUndo cap (castleMask p) (epSquare p) (halfMoveClock p)) Sq Hf Ht Hcaplt)
+        as (Hsnd & Sr).
+      fold f t in Hsnd, Sr. cbn [u_captured u_castleMask u_epSquare u_halfMoveClock negb] in Hsnd, Sr.
+      replace (fullMoveCounter p + 1 - 1)%Z with (fullMoveCounter p) in Sr by (clear; lia).
+      rewrite Hmp in Hsnd, Sr. change (negb (EMPTY =? EMPTY)) with false in Hsnd, Sr. cbv iota in Hsnd, Sr.
+      rewrite nthP_top in Hsnd, Sr by auto with len. rewrite Hsnd.
+      destruct (St_scalars zk _ _ _ _ _ _ _ _ Sr) as (Hwr & _ & _ & _ & Hepr).
+      rewrite um_castle_none.
+      2:{ rewrite Hwr. cbn [negb]. destruct (N.eqb_spec pc BKING) as [Ek|Ek]; [right; exact (Hnk Ek) | left; reflexivity]. }
+      rewrite um_ep_none.
+      2:{ right. split; [|exact Ep]. intro E. clear - E Hpcr. unfold WPAWN in E. lia. }
+      apply (St_finish _ _ _ _ Sr); [|symmetry; exact Esc].
+      apply board_plain; auto.
+  - (* quiet move *)
+    apply orb_false_elim in Ebr as [Ec Enp]. apply negb_false_iff in Ec. apply N.eqb_eq in Ec.
+    assert (Hmp : mpromote m = EMPTY).
+    { destruct (N.eqb_spec (mpromote m) EMPTY) as [|n]; auto. destruct (Hpro n) as (E & _).
+      rewrite E in Enp. discriminate. }
+    destruct (notPawn_facts _ Enp) as (Hnw & Hnb).
+    assert (Hr12 : 1 <= pc <= 12) by (clear - Hpcr; lia).
+    assert (Hum : forall inner q h2 cm2 ep2,
+               St zk 0 (updN t pc inner) (true, h2, (fullMoveCounter p + 1)%Z, cm2, ep2) q -> length inner = 64%nat ->
+               snd (umRestoreBlock zk q m (mkUndo cap (castleMask p) (epSquare p) (halfMoveClock p))) = pc /\
+               St zk 0 (updN f pc (updN t EMPTY (updN t pc inner)))
+                  (false, halfMoveClock p, fullMoveCounter p, castleMask p, epSquare p)
+                  (fst (umRestoreBlock zk q m (mkUndo cap (castleMask p) (epSquare p) (halfMoveClock p))))).
+    { intros inner q h2 cm2 ep2 Sq Hl.
+      destruct (um_restore zk m _ _ _ _ _ _ q (mkUndo cap (castleMask p) (epSquare p) (halfMoveClock p)) Sq Hf Ht Hcaplt)
+        as (Hsnd & Sr).
+      fold f t in Hsnd, Sr. cbn [u_captured u_castleMask u_epSquare u_halfMoveClock negb] in Hsnd, Sr.
+      replace (fullMoveCounter p + 1 - 1)%Z with (fullMoveCounter p) in Sr by (clear; lia).
+      rewrite Hmp in Hsnd, Sr. change (negb (EMPTY =? EMPTY)) with false in Hsnd, Sr. cbv iota in Hsnd, Sr.
+      rewrite nthP_top in Hsnd, Sr by auto. replace (updN t cap (updN t pc inner)) with (updN t EMPTY (updN t pc inner)) in Sr by (rewrite Ec; reflexivity).
+      split; assumption. }
+    destruct (N.eqb_spec pc BKING) as [Ek|Ek].
+    + destruct (N.eq_dec t (f + 2)) as [Et|Et]; [|destruct (N.le_gt_cases 2 f) as [H2f|H2f]; [destruct (N.eq_dec t (f - 2)) as [Et2|Et2]|]].
+      * (* O-O *)
+        destruct (HcK Ek Et) as (_ & Hf3 & Hr1 & Hr3).
+        fold (nthP sqs (f + 1)) in Hr1. fold (nthP sqs (f + 3)) in Hr3.
+        assert (Hik : isKingPiece pc = true) by (rewrite Ek; reflexivity).
+        assert (Hrk : 1 <= BROOK <= 12) by (unfold BROOK; lia).
+        pose proof (quiet_castleK zk EKZ m _ _ _ _ _ _ _ _ pc BROOK S2 Hf3 Et eq_refl Hik Ec Hr1 Hr3 Hrk eq_refl) as Sc.
+        fold f t in Sc.
+        destruct (make_epilogue zk _ _ _ _ _ _ _ m Sc) as (cm' & Sm).
+        eexists _, _, _, _. split; [exact Sm|].
+        intros q h2 cm2 ep2 Sq.
+        rewrite unMakeMove_unfold.
+        edestruct Hum as (Hsnd & Sr); [exact Sq | auto with len |].
+        rewrite Hsnd.
+        assert (D1 : f <> f + 1) by (clear; lia). assert (D2 : f <> f + 3) by (clear; lia).
+        assert (D3 : t <> f + 1) by (clear - Et; lia). assert (D4 : t <> f + 3) by (clear - Et; lia).
+        assert (D5 : f + 1 <> f + 3) by (clear; lia). assert (D6 : f + 1 < 64) by (clear - Hf3; lia).
+        pose proof (um_castleK zk EKZ m _ _ _ _ _ _ _ pc BROOK Sr Ek Et Hf3
+                      (castle_eval1 sqs f t (f + 1) (f + 3) pc BROOK Hlen Hf Ht D6 Hf3 Hne D1 D2 D3 D4 D5)
+                      Hrk eq_refl
+                      (castle_eval3 sqs f t (f + 1) (f + 3) pc BROOK Hlen Hf Ht D6 Hf3 Hne D1 D2 D3 D4 D5)) as Su.
+        fold f t in Su.
+        rewrite um_ep_none by (right; split; assumption).
+        apply (St_finish _ _ _ _ Su); [|symmetry; exact Esc].
+        apply board_castle; auto.
+      * (* O-O-O *)
+        destruct (HcQ Ek H2f Et2) as (_ & Hf4 & Hr1 & Hr3).
+        fold (nthP sqs (f - 1)) in Hr1. fold (nthP sqs (f - 4)) in Hr3.
+        assert (Hik : isKingPiece pc = true) by (rewrite Ek; reflexivity).
+        assert (Hrk : 1 <= BROOK <= 12) by (unfold BROOK; lia).
+        pose proof (quiet_castleQ zk EKZ m _ _ _ _ _ _ _ _ pc BROOK S2 Hf4 Hf Et2 eq_refl Hik Ec Hr1 Hr3 Hrk eq_refl) as Sc.
+        fold f t in Sc.
+        destruct (make_epilogue zk _ _ _ _ _ _ _ m Sc) as (cm' & Sm).
+        eexists _, _, _, _. split; [exact Sm|].
+        intros q h2 cm2 ep2 Sq.
+        rewrite unMakeMove_unfold.
+        edestruct Hum as (Hsnd & Sr); [exact Sq | auto with len |].
+        rewrite Hsnd.
+        assert (D1 : f <> f - 1) by (clear - Hf4; lia). assert (D2 : f <> f - 4) by (clear - Hf4; lia).
+        assert (D3 : t <> f - 1) by (clear - Et2 Hf4; lia). assert (D4 : t <> f - 4) by (clear - Et2 Hf4; lia).
+        assert (D5 : f - 1 <> f - 4) by (clear - Hf4; lia). assert (D6 : f - 1 < 64) by (clear - Hf; lia).
+        assert (D7 : f - 4 < 64) by (clear - Hf; lia).
+        pose proof (um_castleQ zk EKZ m _ _ _ _ _ _ _ pc BROOK Sr Ek Et2 Hf4 Hf
+                      (castle_eval1 sqs f t (f - 1) (f - 4) pc BROOK Hlen Hf Ht D6 D7 Hne D1 D2 D3 D4 D5)
+                      Hrk eq_refl
+                      (castle_eval3 sqs f t (f - 1) (f - 4) pc BROOK Hlen Hf Ht D6 D7 Hne D1 D2 D3 D4 D5)) as Su.
+        fold f t in Su.
+        rewrite um_ep_none by (right; split; assumption).
+        apply (St_finish _ _ _ _ Su); [|symmetry; exact Esc].
+        apply board_castle; auto.
+      * (* king move, not castling *)
+        assert (Hk : (Z.of_N t <> sqPlus f 2 /\ Z.of_N t <> sqPlus f (-2))%Z).
+        { unfold sqPlus. clear - Et Et2 H2f. split; lia. }
+        pose proof (quiet_plain zk EKZ m _ _ _ _ _ _ _ _ pc S2 Hf Ht Hne eq_refl Hr12 Enp Ec (or_intror Hk)) as Sc.
+        fold f t in Sc.
+        destruct (make_epilogue zk _ _ _ _ _ _ _ m Sc) as (cm' & Sm).
+        eexists _, _, _, _. split; [exact Sm|].
+        intros q h2 cm2 ep2 Sq.
+        rewrite unMakeMove_unfold.
+        edestruct Hum as (Hsnd & Sr); [exact Sq | auto with len |].
+        rewrite Hsnd.
+        rewrite um_castle_none by (right; exact Hk).
+        rewrite um_ep_none by (right; split; assumption).
+        apply (St_finish _ _ _ _ Sr); [|symmetry; exact Esc].
+        rewrite <- Ec. apply board_plain; auto.
+      * assert (Hk : (Z.of_N t <> sqPlus f 2 /\ Z.of_N t <> sqPlus f (-2))%Z).
+        { unfold sqPlus. clear - Et H2f. split; lia. }
+        pose proof (quiet_plain zk EKZ m _ _ _ _ _ _ _ _ pc S2 Hf Ht Hne eq_refl Hr12 Enp Ec (or_intror Hk)) as Sc.
+        fold f t in Sc.
+        destruct (make_epilogue zk _ _ _ _ _ _ _ m Sc) as (cm' & Sm).
+        eexists _, _, _, _. split; [exact Sm|].
+        intros q h2 cm2 ep2 Sq.
+        rewrite unMakeMove_unfold.
+        edestruct Hum as (Hsnd & Sr); [exact Sq | auto with len |].
+        rewrite Hsnd.
+        rewrite um_castle_none by (right; exact Hk).
+        rewrite um_ep_none by (right; split; assumption).
+        apply (St_finish _ _ _ _ Sr); [|symmetry; exact Esc].
+        rewrite <- Ec. apply board_plain; auto.
+    + (* not a king *)
+      assert (Hik : isKingPiece pc = false).
+      { unfold isKingPiece. apply orb_false_intro; apply N.eqb_neq; [|exact Ek]. clear - Hpcr. unfold WKING. lia. }
+      pose proof (quiet_plain zk EKZ m _ _ _ _ _ _ _ _ pc S2 Hf Ht Hne eq_refl Hr12 Enp Ec (or_introl Hik)) as Sc.
+      fold f t in Sc.
+      destruct (make_epilogue zk _ _ _ _ _ _ _ m Sc) as (cm' & Sm).
+      eexists _, _, _, _. split; [exact Sm|].
+      intros q h2 cm2 ep2 Sq.
+      rewrite unMakeMove_unfold.
+      edestruct Hum as (Hsnd & Sr); [exact Sq | auto with len |].
+      rewrite Hsnd.
+      destruct (St_scalars zk _ _ _ _ _ _ _ _ Sr) as (Hwr & _).
+      rewrite um_castle_none.
+      2:{ left. rewrite Hwr. apply N.eqb_neq. exact Ek. }
+      rewrite um_ep_none by (right; split; assumption).
+      apply (St_finish _ _ _ _ Sr); [|symmetry; exact Esc].
+      rewrite <- Ec. apply board_plain; auto.
+Qed.
+
+
+End Main.
